@@ -68,6 +68,8 @@ func (m *Machine) readerDrain(r Iface) (data *SliceV, err Value) {
 	switch x := (*p).(type) {
 	case *Opaque:
 		if f, ok := x.X.(*fileModel); ok {
+			// reading moves the file's offset: unsynchronised readers of one file race
+			m.raceAccess(m.cur, f, true, m.curIn)
 			out := &SliceV{A: []Value{}}
 			if f.closed {
 				return out, m.errorValue("read " + f.name + ": file already closed")
@@ -414,6 +416,29 @@ func init() {
 		m.fail("unsupported", "Close of an unmodelled multipart file")
 		return nil
 	}
+	// Seek(0, io.SeekStart) rewinds a modelled file (other offsets are outside the model)
+	fileSeek := func(m *Machine, a []Value) Value {
+		var cell Value = a[0]
+		if p, ok := cell.(Ptr); ok && p != nil {
+			cell = *p
+		}
+		o, _ := cell.(*Opaque)
+		f, _ := o.X.(*fileModel)
+		if f == nil {
+			m.fail("unsupported", "Seek of an unmodelled multipart file")
+		}
+		if m.concInt(a[1], "seek offset") != 0 || m.concInt(a[2], "seek whence") != 0 {
+			m.fail("unsupported", "Seek other than (0, io.SeekStart) on a modelled file")
+		}
+		if f.closed {
+			return Tuple{int64(0), m.errorValue("seek " + f.name + ": file already closed")}
+		}
+		m.raceAccess(m.cur, f, true, m.curIn)
+		f.drained = false
+		return Tuple{int64(0), Iface{}}
+	}
+	R("(*mime/multipart.sectionReadCloser).Seek", fileSeek)
+	R("(mime/multipart.sectionReadCloser).Seek", fileSeek)
 	R("(*mime/multipart.sectionReadCloser).Close", fileClose)
 	R("(mime/multipart.sectionReadCloser).Close", fileClose)
 	R("(*net/http.Request).ParseMultipartForm", func(m *Machine, a []Value) Value {
